@@ -1,4 +1,5 @@
 import UralModel.Model.HostnameTrieSet
+import UralModel.Lemmas.Str
 /-!
 Helper lemmas about the hostname tokenisation of `HostnameTrieSet` (`tok`): ASCII case
 mapping, `strip`, `split('.')`/`'.'.join`, and the punycode step under `PunyLaws`.
@@ -181,16 +182,36 @@ theorem tok_join (puny : Str → Str) (ls : List Str) (hne : ls ≠ [])
 
 /-! ### the punycode step -/
 
+theorem cleanLabel_iff (l : Str) : cleanLabel l = true ↔ CleanLabel l := by
+  unfold cleanLabel CleanLabel
+  simp only [Bool.and_eq_true, List.all_eq_true, bne_iff_ne, ne_eq, Bool.not_eq_true',
+    beq_iff_eq]
+
+instance (l : Str) : Decidable (CleanLabel l) := decidable_of_iff _ (cleanLabel_iff l)
+
 /-- What the theorems need to know about `attempt_to_decode_idna` on a label that starts
-with `xn--`: it either gives the label back (decoding failed) or produces a label that is
-no longer in ACE form.  (CPython's `idna` codec: `ToUnicode` re-encodes its result and
-`ToASCII` rejects labels that already start with the ACE prefix.)  The harness tests this law
-on every label it sends to the real codec. -/
+with `xn--`:
+
+* `decoded` — it either gives the label back (decoding failed) or produces a label that is
+  no longer in ACE form (CPython's `idna` codec: `ToUnicode` re-encodes its result and
+  `ToASCII` rejects labels that already start with the ACE prefix);
+* `no_dot` — it brings no dot into a dot-free label (the codec decodes label by label; the
+  ideographic full stop is refused by `attempt_to_decode_idna`; it is not `.` anyway);
+* `clean` — a clean label (dot-free, no white space, ASCII-lower-case) decodes to a clean label
+  (punycode copies the ASCII characters of the label; nameprep, run by the codec's round-trip
+  check, prohibits every non-ASCII white-space character).
+
+The driver evaluates the three laws on the real codec's answers for the labels of every case
+(`"laws": true` expected), and `harness/punylaws.py` (group `HostTok`, `run_obligations` of
+C09) on the whole enumerated class of ACE labels on every run. -/
 structure PunyLaws (puny : Str → Str) : Prop where
   decoded : ∀ l, hasHeader l = true → puny l = l ∨ hasHeader (puny l) = false
+  no_dot : ∀ l, hasHeader l = true → '.' ∉ l → '.' ∉ puny l
+  clean : ∀ l, hasHeader l = true → CleanLabel l → CleanLabel (puny l)
 
 /-- the identity decoder satisfies the laws -/
-theorem punyLaws_id : PunyLaws (fun l => l) := ⟨fun _ _ => Or.inl rfl⟩
+theorem punyLaws_id : PunyLaws (fun l => l) :=
+  ⟨fun _ _ => Or.inl rfl, fun _ _ h => h, fun _ _ h => h⟩
 
 theorem hasHeader_normalised (part : Str) (h : hasHeader part = true) :
     punyHeader part = acePrefix ∧
@@ -224,6 +245,78 @@ theorem punyPart_idem (puny : Str → Str) (laws : PunyLaws puny) (part : Str) :
     rcases laws.decoded l' h2 with he | hn
     · rw [he]; simp only [punyPart, h2, if_true, h3, he]
     · simp [punyPart, hn]
+
+theorem lowerChar_eq_dot (c : Char) (h : lowerChar c = '.') : c = '.' := by
+  apply Char.toNat_inj.1
+  have := congrArg Char.toNat h
+  rw [lowerChar_toNat] at this
+  have e : '.'.toNat = 46 := rfl
+  rw [e] at this ⊢
+  split at this <;> omega
+
+theorem dot_not_mem_lower (s : Str) (h : '.' ∉ s) : '.' ∉ lower s := by
+  intro hm
+  obtain ⟨c, hc, e⟩ := List.mem_map.1 hm
+  exact h (lowerChar_eq_dot c e ▸ hc)
+
+/-- on a label that is already lower-case the header normalisation of the loop
+(`puny_header + part[4:]`) changes nothing -/
+theorem header_normal_of_lower (l : Str) (h : lower l = l) : punyHeader l ++ l.drop 4 = l := by
+  have : punyHeader l = l.take 4 := by
+    unfold punyHeader lower
+    rw [List.map_take]
+    exact congrArg (List.take 4) h
+  rw [this, List.take_append_drop]
+
+/-- the punycode step brings no dot into a dot-free label … -/
+theorem punyPart_no_dot (puny : Str → Str) (laws : PunyLaws puny) (l : Str) (h : '.' ∉ l) :
+    '.' ∉ punyPart puny l := by
+  unfold punyPart
+  cases hh : hasHeader l with
+  | false => simpa using h
+  | true =>
+    simp only [if_true]
+    obtain ⟨_, h2, _⟩ := hasHeader_normalised l hh
+    apply laws.no_dot _ h2
+    intro hm
+    rcases List.mem_append.1 hm with hm | hm
+    · exact dot_not_mem_lower _ (fun hx => h (List.mem_of_mem_take hx)) hm
+    · exact h (List.mem_of_mem_drop hm)
+
+/-- … and maps clean labels to clean labels -/
+theorem punyPart_clean (puny : Str → Str) (laws : PunyLaws puny) (l : Str) (h : CleanLabel l) :
+    CleanLabel (punyPart puny l) := by
+  unfold punyPart
+  cases hh : hasHeader l with
+  | false => simpa using h
+  | true =>
+    simp only [if_true]
+    rw [header_normal_of_lower l h.2]
+    exact laws.clean l hh h
+
+/-- **every token of a hostname is dot-free**, whatever the hostname -/
+theorem tok_dot_free (puny : Str → Str) (laws : PunyLaws puny) (h : Str) :
+    ∀ l ∈ tok puny h, '.' ∉ l := by
+  intro l hl
+  unfold tok tokLabels at hl
+  rw [List.mem_reverse, List.mem_map] at hl
+  obtain ⟨x, hx, rfl⟩ := hl
+  exact punyPart_no_dot puny laws x (Ural.Py.not_mem_of_mem_splitOn '.' _ x hx)
+
+/-! ### `join_hostname` is injective on keys of dot-free labels -/
+
+/-- two non-empty keys of dot-free labels that print alike are the same key -/
+theorem joinHostname_injective (a b : List Str) (ha : a ≠ []) (hb : b ≠ [])
+    (hda : ∀ l ∈ a, '.' ∉ l) (hdb : ∀ l ∈ b, '.' ∉ l)
+    (h : joinHostname a = joinHostname b) : a = b := by
+  unfold joinHostname at h
+  have e1 := splitOn_join a.reverse '.' (by simpa using ha)
+    (fun l hl c hc e => hda l (List.mem_reverse.1 hl) (e ▸ hc))
+  have e2 := splitOn_join b.reverse '.' (by simpa using hb)
+    (fun l hl c hc e => hdb l (List.mem_reverse.1 hl) (e ▸ hc))
+  rw [h, e2] at e1
+  have := congrArg List.reverse e1
+  simpa using this.symm
 
 theorem tokLabels_decoded (puny : Str → Str) (laws : PunyLaws puny) (ls : List Str) :
     tokLabels puny (ls.map (punyPart puny)) = tokLabels puny ls := by
